@@ -7,8 +7,9 @@ package estargz
 //  (a) in-package: the REAL sortEntries (importTar + moveRec) on generated tars; the resulting
 //      entry order is printed canonically (`sort` ops) and must be reproduced exactly by the Lean model.
 //  (b) end-to-end: the REAL Build(...) -> decompress -> tar entry order -> Open -> TOC offsets (`build` ops).
-//  (c) a separate, clearly labelled stream of tars whose parent/hardlink graph has a CYCLE, each run in a
-//      child process with a small stack and a timeout (oracle signature `moverec-link-cycle`).
+//  (c) a separate, clearly labelled REGRESSION stream of tars whose parent/hardlink graph has a CYCLE, each run
+//      in a child process with a small stack and a timeout: the call must return quickly, with an error when a
+//      listed path runs into the cycle (oracle signature `moverec-link-cycle`: it used to overflow the stack).
 //
 // The oracle below is written against the property text only (it never looks at the model's answer).
 
@@ -950,7 +951,7 @@ func verifScenarios() []verifCase {
 	}
 }
 
-// verifCycleScenarios: tars whose parent/hardlink graph has a cycle (separate stream).
+// verifCycleScenarios: tars whose parent/hardlink graph has a cycle (separate regression stream).
 func verifCycleScenarios(rnd *verifutil.Rand) []verifCase {
 	r := func(n string, sz int) verifEnt { return verifEnt{typ: 'r', name: n, size: sz} }
 	d := func(n string) verifEnt { return verifEnt{typ: 'd', name: n} }
@@ -965,7 +966,7 @@ func verifCycleScenarios(rnd *verifutil.Rand) []verifCase {
 		{label: "cycle of three below a directory", ents: []verifEnt{d("x/"), l("x/a", "x/b"), l("x/b", "/x/c"), l("x/c", "./x/a"), r("f", 3)}, prio: []string{"f", "x/b"}},
 		{label: "cycle reached through a chain", ents: []verifEnt{r("f", 3), l("l1", "l2"), l("l2", "l3"), l("l3", "l2")}, prio: []string{"l1"}},
 	}
-	for len(cs) < 11 {
+	for len(cs) < verifutil.EnvInt("VERIF_NCYCLE", 14) {
 		c := verifGenCaseOnce(rnd, false)
 		if len(c.ents) > 0 {
 			// close a cycle through a fresh pair of hardlinks and list one of them
@@ -1134,8 +1135,37 @@ func TestVerifC14CycleChild(t *testing.T) {
 	fmt.Println("VERIFC14RESULT " + verifResLine(res))
 }
 
+// reachesCycle: some name needed by k (through entries of the tar) lies on a cycle of the
+// parent/hardlink graph.
+func (w *verifWorld) reachesCycle(k string) bool {
+	acc := map[string]bool{}
+	w.reach(k, acc)
+	keys := make([]string, 0, len(acc))
+	for d := range acc {
+		keys = append(keys, d)
+	}
+	sort.Strings(keys)
+	for _, d := range keys {
+		if d == "" {
+			continue
+		}
+		if _, ok := w.surv[d]; !ok {
+			continue
+		}
+		// d is on a cycle iff d is needed by one of its own prerequisites
+		for _, dd := range w.deps(d) {
+			sub := map[string]bool{}
+			w.reach(dd, sub)
+			if sub[d] {
+				return true
+			}
+		}
+	}
+	return false
+}
+
 func verifRunCycleStream(out *verifutil.Out) {
-	out.Comment("---- stream: tars with a parent/hardlink CYCLE (each in a child process, small stack, timeout) ----")
+	out.Comment("---- regression stream: tars with a parent/hardlink CYCLE (each in a child process, small stack, timeout) ----")
 	cs := verifCycleScenarios(verifutil.NewRand(verifutil.Seed() ^ 0xc14c))
 	for i := 0; i < 2*len(cs); i++ {
 		c := cs[i/2]
@@ -1159,12 +1189,7 @@ func verifRunCycleStream(out *verifutil.Out) {
 		}
 		out.Count("cycle-case")
 		control := strings.Contains(c.label, "control")
-		if (err != nil || result == "") && control {
-			// no cycle under the specified reading (last duplicate wins / path not listed): must terminate
-			out.Emit(verifSortOp(c, back, allow), "diverge")
-			out.Fail("diverged-on-acyclic-input", "sortEntries crashed or hung on a tar without a reachable cycle :: "+verifDescribe(c, allow))
-			continue
-		}
+		what := verifDescribe(c, allow)
 		if err != nil || result == "" {
 			how := "crashed"
 			switch {
@@ -1173,19 +1198,59 @@ func verifRunCycleStream(out *verifutil.Out) {
 			case strings.Contains(string(b), "stack overflow"):
 				how = "stack overflow (fatal, not recoverable)"
 			}
-			// the model agrees that this input does not terminate: compare, and report the input
 			out.Emit(verifSortOp(c, back, allow), "diverge")
 			out.Count("cycle-diverged")
-			out.Fail("moverec-link-cycle", "sortEntries/moveRec does not terminate: "+how+" :: "+verifDescribe(c, allow))
+			if control {
+				out.Fail("diverged-on-acyclic-input", "sortEntries "+how+" on a tar without a reachable cycle :: "+what)
+			} else {
+				out.Fail("moverec-link-cycle", "sortEntries/moveRec does not terminate: "+how+" :: "+what)
+			}
 			continue
 		}
+		// the call returned: the model must give the same answer
+		out.Emit(verifSortOp(c, back, allow), result)
+		out.Distinct("cycle/" + verifBool(allow) + "/" + result + "/" + verifHexList("", c.prio))
+		w := verifNewWorld(back, false)
 		if control {
-			out.Emit(verifSortOp(c, back, allow), result)
 			out.Count("cycle-control")
+			if result == "err" || strings.HasPrefix(result, "ok ") {
+				// no cycle is reached: the ordinary predicate applies; re-run in-process to get the structured result
+				tarb, _, _ := verifBuildTar(c.ents)
+				verifOracle(out, w, c.prio, allow, verifRunSort(tarb, c.prio, allow), what)
+			}
 			continue
 		}
-		out.Comment("cycle input handled without divergence: " + result + " :: " + verifDescribe(c, allow))
-		out.Count("cycle-handled")
+		// independent necessary conditions on a cyclic tar
+		if result == "err" {
+			out.Count("cycle-reported")
+			if allow {
+				// with allow-not-found the only error left is the cycle: some listed path must run into one
+				hit := false
+				for _, l := range c.prio {
+					if w.reachesCycle(verifClean(l)) {
+						hit = true
+					}
+				}
+				if !hit {
+					out.Fail("cycle-error-without-cycle", "error although missing paths are allowed and no listed path runs into a cycle :: "+what)
+				}
+			}
+			continue
+		}
+		// success: every listed path that was not reported back has been placed with everything it
+		// needs, so none of them may run into a cycle
+		out.Count("cycle-ok")
+		missed := map[string]bool{}
+		if i := strings.Index(result, " missed="); i >= 0 {
+			for _, h := range strings.Split(result[i+len(" missed="):], ",") {
+				missed[h] = true
+			}
+		}
+		for _, l := range c.prio {
+			if !missed[verifHex(l)] && w.reachesCycle(verifClean(l)) {
+				out.Fail("cycle-not-reported", fmt.Sprintf("listed path %q runs into a cycle of hardlinks but the call succeeded without reporting it :: %s", l, what))
+			}
+		}
 	}
 }
 
@@ -1221,7 +1286,5 @@ func TestVerifC14(t *testing.T) {
 		c := verifGenCase(rnd, false)
 		verifDoBuild(out, c, rnd.Intn(2) == 0, verifGenCfg(rnd))
 	}
-	if os.Getenv("VERIF_C14_CYCLE") != "0" {
-		verifRunCycleStream(out)
-	}
+	verifRunCycleStream(out)
 }
